@@ -513,7 +513,9 @@ def well_formed(tops):
     seen = set()
 
     def walk(ns):
-        for n in ns:
+        for i, n in enumerate(ns):
+            if n[0] == "block" and n[1] == "try" and not (i + 1 < len(ns) and ns[i + 1][0] == "block" and ns[i + 1][1] == "except"):
+                return False                        # a try statement needs a handler to be Python at all
             if n[0] == "leaf":
                 meta = n[2] if len(n) > 2 else ("plain",)
                 if meta[0] == "asg":
